@@ -22,7 +22,7 @@ var c18HTMLTokens = []string{
 	"<p style=\"", "style='", "&lt;", "&#60;", "x", "\x00", "position:fixed;",
 }
 
-var c18CSSTokens = []string{"color", "position", "w\\69 dth", ":", ";", "red", "url(javascript:x)", "/*", "*/", "\"", "'", "@import", "{", "}", "\\", "!important", " "}
+var c18CSSTokens = []string{"color", "position", "w\\69 dth", ":", ";", "red", "url(javascript:x)", "/*", "*/", "\"", "'", "@import", "{", "}", "\\", "!important", " ", "&#59 ", "&#x3a;"}
 
 var c18TextTokens = []string{"<", ">", "&", "\"", "http://a.b/c", "www.a.bc/", "(", ")", "\r", "\n", "javascript:x", "a", "'", "<script>"}
 
